@@ -222,3 +222,6 @@ func isStringType(t types.Type) bool {
 	b, ok := t.Underlying().(*types.Basic)
 	return ok && b.Info()&types.IsString != 0
 }
+
+// VFork: result of an inlined call whose return paths are to be continued separately.
+type VFork struct{ rets []retPath }
